@@ -363,7 +363,7 @@ impl Frame {
 //@extract file=src/component/bitrepr.rs impl="impl BitRepr for Frame {" fn="fn write"
 //@subst `fn write<S: BitSink>(&self, dest: &mut S) -> Result<(), OutputError<S>> {` => `fn write<S: BitSink>(&self, dest: &mut S, buf: &mut (MemSink64, Vec<u8>), FRAME_CRC: &FrameCrc) -> (res: Result<(), OutputError<S>>) {`
 //@subst `        reuse!(FRAME_CRC_BUFFER, |buf: &mut (MemSink<u64>, Vec<u8>)| {\n` => `        {\n`
-//@subst `                .map_err(OutputError::<S>::from_sink)\n        })` => `                .map_err(OutputError::<S>::from_sink)\n        }`
+//@subst `\n        })\n` => `\n        }\n`
 //@subst `for sub in self.subframes() {` => `for sub in it: self.subframes() {`
 //@sig
 //|     ensures
@@ -422,7 +422,7 @@ impl Frame {
 //|                     lemma_prefix_extend(p, padded, fb, fb + crcbits);
 //|                 }
 //|             }
-//@before `dest.write(FRAME_CRC.checksum(&*bytebuf))`
+//@after `                .map_err(OutputError::<S>::from_sink)?;`
 //|             proof {
 //|                 assert(dest.bits() == padded + fb);
 //|                 lemma_prefix_append(d0, zeros(pad8(d0.len())) + fb);
@@ -434,7 +434,7 @@ impl Frame {
 //|                     lemma_prefix_trans(d0, padded + fb, x);
 //|                 }
 //|             }
-//@before `Ok(())`
+//@before `Ok(())\n    } else {`
 //|         proof {
 //|             lemma_prefix_refl(dest.bits());
 //|         }
